@@ -52,6 +52,17 @@ def _child(argv, cwd, env, out_path, err_path, stdin_path, opts):
     os.dup2(fi, 0)
     os.dup2(fo, 1)
     os.dup2(fe, 2)
+    if opts.get("broken_stdio"):
+        # `cond run ... | head`, a pager that was quit, a log collector that died: Conductor's own stdout (and/or
+        # stderr) is a pipe nobody reads any more; every write fails with EPIPE
+        for fdn in opts["broken_stdio"]:
+            pr_, pw_ = os.pipe()
+            os.close(pr_)
+            os.dup2(pw_, fdn)
+            os.close(pw_)
+    if opts.get("block_sigchld"):
+        # started by a supervisor that keeps SIGCHLD blocked: the signal mask is inherited across fork and exec
+        signal.pthread_sigmask(signal.SIG_BLOCK, {signal.SIGCHLD})
     sys.stdin = os.fdopen(0, "r", closefd=False)
     sys.stdout = os.fdopen(1, "w", closefd=False, encoding="utf-8")
     sys.stderr = os.fdopen(2, "w", closefd=False, encoding="utf-8")
